@@ -670,6 +670,9 @@ class HistBook:
     def apply(self, st):
         op = st["op"]
         if op == "set":
+            diff = [k for k in ("beta", "q", "eta", "r", "model") if st["P"][k] != self.vals[st["id"]][k]]
+            if len(diff) == 1:
+                self.shapes.add("hist-only-" + diff[0] + "-changes")
             self.vals[st["id"]] = st["P"]
             if st["id"] == self.held:
                 self.dirty = True
@@ -897,6 +900,9 @@ def hist_simpler(case):
         yield cand
 
 
+_FIELD_TURN = [0]
+
+
 def gen_hist(rng, pick_params):
     """random history; the macro moves make sure the shapes that matter occur: an in-place update of the
     held object (through the reference the caller kept, or through `processor.noise`) followed by the
@@ -911,7 +917,25 @@ def gen_hist(rng, pick_params):
             ns[rng.randrange(m)] = 1
         return ns
 
-    nobj = rng.randint(1, 3)
+    def one_field(P):
+        """P with exactly one of brightness / g2 / transmittance / indistinguishability / g2 model changed
+        (what a parameter sweep does); the field is taken in turn so that every one occurs in every run"""
+        for _ in range(40):
+            key = ("beta", "q", "eta", "r", "model")[_FIELD_TURN[0] % 5]
+            _FIELD_TURN[0] += 1
+            if key == "model":
+                Q = {**P, "model": INDIST if P["model"] == DIST else DIST}
+            else:
+                grid = {"beta": BETAS, "q": QS, "eta": ETAS, "r": RS}[key]
+                Q = {**P, key: str(rng.choice([x for x in grid if str(x) != P[key]]))}
+            if valid(Q):
+                return Q
+        return pick_params()
+
+    def new_value(P):
+        return one_field(P) if rng.random() < 0.6 else pick_params()
+
+    nobj = rng.choice([1, 2, 2, 3])
     case = {"kind": "hist", "m": m, "objs": [pick_params() for _ in range(nobj)],
             "init": {"noise": rng.choice([0, 0, 0, None]), "route": rng.choice(["ctor", "ctor", "experiment"])},
             "steps": []}
@@ -930,14 +954,15 @@ def gen_hist(rng, pick_params):
         if rng.random() < 0.5:
             emit({"op": "read"})
     for _ in range(rng.randint(1, 4)):
-        move = rng.choice(["sweep", "sweep", "sweep", "other", "equal", "same", "none", "input", "source",
+        move = rng.choice(["sweep", "sweep", "sweep", "other", "equal", "equal", "same", "none", "input", "source",
                            "filter", "read"])
         if move == "sweep":
             if book.held == book.none_id:
                 emit({"op": "assign", "id": rng.randrange(nobj), "route": route()})
                 if rng.random() < 0.5:
                     emit({"op": "read"})
-            emit({"op": "set", "id": book.held, "P": pick_params(), "via": rng.choice(["ref", "getter"]),
+            emit({"op": "set", "id": book.held, "P": new_value(book.vals[book.held]),
+                  "via": rng.choice(["ref", "getter"]),
                   "fields": rng.choice(["all", "changed"])})
             if rng.random() < 0.25:
                 emit({"op": "read"})          # not judged; fills the cache with the old distribution
@@ -946,13 +971,19 @@ def gen_hist(rng, pick_params):
                 emit({"op": "read"})
         elif move == "other":
             k = rng.randrange(nobj)
+            if k == book.held and nobj > 1:
+                k = (k + 1) % nobj
             if rng.random() < 0.6:
                 emit({"op": "set", "id": k, "P": pick_params(), "via": "ref", "fields": rng.choice(["all", "changed"])})
             emit({"op": "assign", "id": k, "route": route()})
         elif move == "equal" and not book.dirty and book.held != book.none_id:
             to = book.next_id
             emit({"op": "copy", "id": book.held, "to": to})
+            if rng.random() < 0.5:      # a new object that differs from the held one in a single field
+                emit({"op": "set", "id": to, "P": one_field(book.vals[to]), "via": "ref", "fields": "changed"})
             emit({"op": "assign", "id": to, "route": route()})
+            if rng.random() < 0.7:
+                emit({"op": "read"})
         elif move == "same" and book.held != book.none_id:
             emit({"op": "assign", "id": book.held, "route": route()})
         elif move == "none":
@@ -1056,7 +1087,31 @@ def all_inputs(max_modes, max_per_mode, max_total):
     return out
 
 
+def handle_hist(chk, case):
+    chk.count("kind", "hist")
+    if not hist_wellformed(case):
+        raise ValueError("malformed history case")
+    for sh in hist_shapes(case):
+        chk.branch(sh)
+        chk.count("hist_shape", sh)
+    chk.branch("hist")
+    chk.count("hist_steps", len(case["steps"]))
+    t0 = time.perf_counter()
+    res = judge(chk, case)
+    secs = chk.extra.setdefault("seconds_by_kind", {})
+    secs["hist"] = round(secs.get("hist", 0.0) + time.perf_counter() - t0, 3)
+    nontrivial = any(not classify(P)[0] for P in case["objs"]) and \
+        any(st["op"] == "input" and sum(st["ns"]) > 0 for st in case["steps"])
+    chk.case(("hist", json.dumps(case, sort_keys=True)), nontrivial=nontrivial, sample=case)
+    if res is not None:
+        small = shrink(chk, case, res[1])
+        r2 = judge(chk, small) or res
+        chk.fail(r2[0], res[1], r2[2], {"case": small})
+
+
 def handle(chk, case):
+    if case["kind"] == "hist":
+        return handle_hist(chk, case)
     P = case["P"]
     kind = case["kind"]
     chk.count("kind", kind)
@@ -1131,7 +1186,13 @@ def run(chk: core.Check):
                 "transmittance, r=sqrt(indistinguishability), multiphoton model), expected input / n / filter / "
                 "explicit threshold / tag-counter offset); kinds: generate_distribution, "
                 "Processor.source_distribution (noise in the constructor / set after the input / replaced / input "
-                "replaced), probability_distribution, _compute_prob_table/cache_prob_table, "
+                "replaced; and HISTORIES on one long-lived Processor: NoiseModel objects updated in place with "
+                "set_value through the kept reference or through processor.noise and assigned again — the same "
+                "object, an equal new object, another object, None — via processor.noise or "
+                "processor.experiment.noise, inputs replaced, reads that fill the cache in between, direct "
+                "requests to processor.source; every read made while the held object is not in the 'updated in "
+                "place, not yet re-assigned' state is judged against the CURRENT parameters), "
+                "probability_distribution, _compute_prob_table/cache_prob_table, "
                 "generate_samples (goodness-of-fit TEST at false-alarm level 1e-9, not a proof; two thirds of the "
                 "filtered requests follow a different request on the same Source object), constructor "
                 "rejections; fixed parameter classes x ALL inputs with <=3 modes and 0..2 (thorough 0..3) photons "
@@ -1145,13 +1206,24 @@ def run(chk: core.Check):
         "occupation vectors per tag); for generate_samples an unannotated photon and the signal tag _:0 are identified",
         "settings in which a trimming comparison falls within 1e-6 (relative) of the threshold are skipped and counted",
         "generate_samples is validated by a statistical goodness-of-fit test only",
+        "a NoiseModel updated in place takes effect at the next assignment to processor.noise (NoiseModel has no "
+        "observer); reads between the in-place update and the assignment are performed but not judged",
+        "histories use BasicState inputs only (no custom SVDistribution / polarised input, no heralds) and only "
+        "noise values the Source constructor accepts",
     ]
     chk.required_branches = ["pd-dist", "pd-indist", "nonpd-g2", "nonpd-plain", "perfect", "g2-loss-hom-together",
                              "eta-zero", "tag-offset", "thr-explicit", "trim-active", "single-mode-shortcut",
                              "zero-photon-mode", "table-filter", "table-nofilter", "table-range-quirk",
                              "table-zero-perf", "samples-filter", "samples-nofilter", "samples-after-other-request", "proc",
                              "proc-ctor", "proc-noise-after", "proc-renoise", "proc-reinput", "loss-only",
-                             "rejected-stream"]
+                             "rejected-stream",
+                             "hist", "hist-inplace-ref", "hist-inplace-getter", "hist-inplace-reassign",
+                             "hist-inplace-reassign-cached", "hist-inplace-reassign-uncached",
+                             "hist-same-object-reassign-clean", "hist-equal-new-object", "hist-other-object",
+                             "hist-set-unheld", "hist-noise-none", "hist-experiment-route", "hist-input-change",
+                             "hist-read-cached", "hist-read-regenerates", "hist-read-source",
+                             "hist-dirty-read-unjudged", "hist-only-beta-changes", "hist-only-q-changes",
+                             "hist-only-eta-changes", "hist-only-r-changes", "hist-only-model-changes"]
     chk.lean = core.LeanDriver("C06")
     rng = chk.rng
 
@@ -1191,6 +1263,12 @@ def run(chk: core.Check):
             ns[rng.randrange(m)] = 0
         cases.append({"kind": "proc", "P": P, "ns": ns,
                       "order": ["ctor", "noise-after", "ctor", "renoise", "reinput"][ip % 5]})
+    # 3b. histories on one long-lived Processor
+    _FIELD_TURN[0] = 0
+    def hist_params():
+        return rng.choice(list(FIXED.values())) if rng.random() < 0.5 else rand_params(rng)
+    for _ in range(chk.pick(60, 700)):
+        cases.append(gen_hist(rng, hist_params))
     # 4. probability_distribution
     for _ in range(chk.pick(40, 600)):
         P = rng.choice(list(FIXED.values())) if rng.random() < 0.4 else rand_params(rng)
@@ -1203,6 +1281,9 @@ def run(chk: core.Check):
         n = rng.randint(0, chk.pick(6, 12))
         f = rng.choice([0, 0, 1, 2, 3, n, n + 1, 2 * n, 2 * n + 1])
         cases.append({"kind": "table", "P": P, "n": n, "f": f, "cache": rng.random() < 0.5})
+    # everything lost and a filter: phys_perf = 0 (deterministic, so that the branch never depends on the seed)
+    for n, f in ((2, 1), (1, 1), (3, 2)):
+        cases.append({"kind": "table", "P": FIXED["eta-zero"], "n": n, "f": f, "cache": f == 2})
     # 6. constructor rejections
     cases.extend(bad_cases())
     # 7. sampler, goodness-of-fit TEST
